@@ -3,7 +3,7 @@
    netaddr/ip/iana.py (query, _within_bounds): a row of an IANA_INFO dictionary is Model/Iana.v's irow (key object + record);
    the result of query() is a dict from result names to lists of records = an insertion-ordered association list. *)
 From Coq Require Import ZArith List Bool String Ascii.
-From NV Require Import Base.PyVal Model.Ip Model.SrcPrelude Model.Iana.
+From NV Require Import Base.PyVal Base.PyStr Model.Ip Model.SrcPrelude Model.Iana.
 Import ListNotations.
 Open Scope Z_scope.
 
@@ -37,3 +37,23 @@ Definition iana_result_name (reg : Z) : string :=
   else if reg =? REG_IPV6 then "IPv6" else if reg =? REG_IPV6U then "IPv6_unicast" else "".
 Definition iana_table (tab : list irow) (k : string) : list irow := sub_dict tab (iana_dict_reg k).
 Definition iana_named (info : list (Z * list irow)) : sdict := map (fun kl => (iana_result_name (fst kl), snd kl)) info.
+
+(* ---- netaddr/eui/__init__.py: the identifier classes (unit pysrc_euig_gen.v) ---- *)
+(* ieee.OUI_INDEX / ieee.IAB_INDEX: a dict identifier -> list of (offset, size), as its items in insertion order *)
+Definition eindex := list (Z * list (Z * Z)).
+Fixpoint py_eidx_find (d : eindex) (k : Z) : option (list (Z * Z)) :=
+  match d with [] => None | (k', l) :: t => if k' =? k then Some l else py_eidx_find t k end.
+Definition py_eidx_mem (d : eindex) (k : Z) : bool := match py_eidx_find d k with Some _ => true | None => false end.
+Definition py_eidx_get (d : eindex) (k : Z) : outcome (list (Z * Z)) :=
+  match py_eidx_find d k with Some l => Ok l | None => Raise KeyError end.
+(* a, b = <sequence>: ValueError unless it has exactly two items *)
+Definition py_pair_of_list (l : list Z) : outcome (Z * Z) := match l with [a; b] => Ok (a, b) | _ => Raise ValueError end.
+(* record['offset'] = e / record['size'] = e on the six-field record (fields 4 and 5; the other fields are not ints) *)
+Definition orec := (Z * string * string * list string * Z * Z)%type.
+Definition py_rec_set (r : orec) (field : Z) (e : Z) : orec :=
+  let '(idx, id, org, address, offset, size) := r in
+  if field =? 0 then (e, id, org, address, offset, size) else if field =? 4 then (idx, id, org, address, e, size)
+  else if field =? 5 then (idx, id, org, address, offset, e) else r.
+(* '<text>%o' % e *)
+Definition py_fmt_oct (text : string) (e : Z) : string :=
+  String.append text (if e <? 0 then String "-" (PyStr.str_of (PyStr.fmt_nat 8 false (- e))) else PyStr.str_of (PyStr.fmt_nat 8 false e)).
